@@ -19,6 +19,20 @@ package mpbgv
 //@   copied e2s s2e
 //@   fresh tmpPt tmpMask tmpMaskPerm
 
+// shape invariant of the type (established by the constructor): the plaintext buffer has the rows of
+// the OUTPUT parameters' ring (Transform uses it at the output level); the copy keeps it (finding F31:
+// the copy took the buffer from the input parameters' ring)
+//@ afunc EncToShareProtocol.ShallowCopy
+//@   trusted see its copy contract: the copy has the receiver's parameters
+//@   ensures result.params.Parameters.ringQ.level == e2s.params.Parameters.ringQ.level
+//@ afunc ShareToEncProtocol.ShallowCopy
+//@   trusted see its copy contract: the copy has the receiver's parameters
+//@   ensures result.params.Parameters.ringQ.level == s2e.params.Parameters.ringQ.level
+//@ afunc MaskedTransformProtocol.ShallowCopy#shape
+//@   property C10
+//@   requires len(rfp.tmpPt.Coeffs) == rfp.s2e.params.Parameters.ringQ.level + 1
+//@   ensures len(result.tmpPt.Coeffs) == result.s2e.params.Parameters.ringQ.level + 1
+
 //@ copy RefreshProtocol.ShallowCopy
 //@   copied MaskedTransformProtocol
 
